@@ -127,7 +127,9 @@ func (c *Collection) ExplainQuery(statement string, args map[string]any) (plan m
 func (c *Collection) prepareQuery(statement string, args map[string]any) (string, []any) {
 	// Replace `$_keyspace` with a sub-query matching documents in this collection:
 	statement = strings.Replace(statement, sgbucket.KeyspaceQueryToken, "_keyspace", -1)
-	statement = fmt.Sprintf(`WITH _keyspace as (SELECT key as id, value as body, xattrs
+	// body and xattrs are stored as BLOBs; SQLite's JSON operators would read a BLOB argument as JSONB, so they are
+	// handed to the query as text.
+	statement = fmt.Sprintf(`WITH _keyspace as (SELECT key as id, CAST(value AS TEXT) as body, CAST(xattrs AS TEXT) as xattrs
 							 FROM documents WHERE collection=%d AND value NOT NULL) %s`,
 		c.id, statement)
 	// Convert the args to an array of sql.NamedArg values:
